@@ -182,10 +182,40 @@ fn random(args: &Args) -> i32 {
                 all[rng.below(lim.min(all.len()) as u64) as usize].clone()
             }
         };
+        // the large-universe runs start by walking up to both capacity limits: enable every name, then
+        // grant one role to every address, each in a shuffled order; afterwards random churn
+        let mut script: Vec<(&str, String, String)> = Vec::new();
+        #[allow(unused_assignments)]
+        let mut granted_role = names[0].clone();
+        if nn > 32 {
+            let mut order: Vec<usize> = (0..names.len()).collect();
+            for i in (1..order.len()).rev() {
+                order.swap(i, rng.below(i as u64 + 1) as usize);
+            }
+            granted_role = names[order[0]].clone();
+            for i in order {
+                script.push(("enable", String::new(), names[i].clone()));
+            }
+        }
+        if na > 64 {
+            let mut order: Vec<usize> = (0..addrs.len()).collect();
+            for i in (1..order.len()).rev() {
+                order.swap(i, rng.below(i as u64 + 1) as usize);
+            }
+            if nn <= 32 {
+                script.push(("enable", String::new(), names[0].clone()));
+            }
+            for i in order {
+                script.push(("grant", addrs[i].clone(), granted_role.clone()));
+            }
+        }
+        script.reverse();
         for d in 1..=len as usize {
             let phase_fill = d < (len as usize) / 2; // first half: fill up; second half: churn
             let k = rng.below(100);
-            let (op, a, r) = if k < if phase_fill { 22 } else { 10 } {
+            let (op, a, r) = if let Some(x) = script.pop() {
+                x
+            } else if k < if phase_fill { 22 } else { 10 } {
                 ("enable", String::new(), watched_bias(&mut rng, &names, &wr, nn))
             } else if k < if phase_fill { 26 } else { 22 } {
                 ("disable", String::new(), watched_bias(&mut rng, &names, &wr, nn))
